@@ -124,3 +124,34 @@ func runC05(c *CheckCtx) {
 	c.assumptions["A-DATA: values handed to the printer are acyclic (termination of Pr_str on data is by structural recursion, not mechanised)"] = true
 	c.assumptions["regexp, strconv and strings library calls terminate and do not panic"] = true
 }
+
+// ---------------------------------------------------------------------------
+// C14: = is structural equality and an equivalence
+
+func init() {
+	register(&Property{
+		ID: "C14", Level: "proof", Technique: "contract-based deductive verification: Equal_Q proved equal to the one-step definition EQdef of structural equality (recursive calls abstracted by the uninterpreted EQ), with quantified loop invariants, a visited-set ghost for map ranges and the finite-map cardinality lemma; equivalence-relation and kind-separation lemmas proved on the spec by induction steps",
+		DesignRef: "DESIGN.md §4 C14",
+		Explain:   "functional contract of types.Equal_Q and types.Sequential_Q plus spec lemmas (reflexive, symmetric, transitive induction steps; kind separation)",
+		Run:       runC14,
+		ReplayOracle: func(o *Obligation) string {
+			if o.Kind == "post" && strings.HasPrefix(o.Fn, "types.Equal_Q") {
+				return "c14-eq"
+			}
+			return ""
+		},
+	})
+}
+
+func runC14(c *CheckCtx) {
+	jobs := c.jobsFor([]string{"types.Equal_Q", "types.Sequential_Q", "types.GetSlice"}, func(f *ssa.Function) *Job {
+		return &Job{Fn: f, PanicMode: "ignore"}
+	})
+	c.runJobs(jobs, func(o *Obligation) bool {
+		return o.Kind == "post" || o.Kind == "pre" || strings.HasPrefix(o.Kind, "inv-")
+	})
+	c.runLemmas("C14")
+	c.assumptions["M-IND: EQ is the fixpoint of EQdef (recursive calls are specified by EQ, the body is proved against one unfolding); partial correctness"] = true
+	c.assumptions["reflect.TypeOf / Type.Name modelled as the dynamic-type tag of the interface value and its declared name"] = true
+	c.assumptions["value containers reachable from the arguments are not written during the comparison (Equal_Q is pure; C02 for the rest of the system)"] = true
+}
